@@ -220,4 +220,14 @@ def _envelope_case(rep):
     return True
 
 
-REPLAYERS = {"validate_case": _validate_case, "envelope_case": _envelope_case, "codec_value": _codec_value, "sse_script": _sse_script, "http_seq": _http_seq, "host_case": _host_case, "lifecycle": _lifecycle, "stdio_out": _stdio_out, "framing": _framing, "gate_script": _gate_script, "version_runs": _version_runs, "handshake": _handshake, "handshake_server": _handshake_server, "dispatch_case": _dispatch_case, "session_ops": _session_ops, "errorclass_case": _errorclass_case, "errorclass_sets": _errorclass_sets}
+def _carrier_conv(rep):
+    from harness.props import carrier
+    from harness.drivers import carrier_drv
+    t = carrier_drv.run_conversations([(rep["carrier"], rep["conv"])])
+    print(json.dumps(t[0]))
+    res = validate.validate("ChannelTrace", t, carrier.CONSTS, work=os.path.join(tlc.WORK, "replay_ch"), jobs=1)
+    print("failed:", res["failed"])
+    return rep["clause"] in res["failed"].get(0, [])
+
+
+REPLAYERS = {"carrier_conv": _carrier_conv, "validate_case": _validate_case, "envelope_case": _envelope_case, "codec_value": _codec_value, "sse_script": _sse_script, "http_seq": _http_seq, "host_case": _host_case, "lifecycle": _lifecycle, "stdio_out": _stdio_out, "framing": _framing, "gate_script": _gate_script, "version_runs": _version_runs, "handshake": _handshake, "handshake_server": _handshake_server, "dispatch_case": _dispatch_case, "session_ops": _session_ops, "errorclass_case": _errorclass_case, "errorclass_sets": _errorclass_sets}
